@@ -106,6 +106,11 @@ where
     pub fn is_empty(&self) -> bool {
         self.events.is_empty()
     }
+
+    /// The number of events that are waiting to be popped.
+    pub fn len(&self) -> usize {
+        self.events.len()
+    }
 }
 
 impl<K, V> MapEventQueue<K, V> for EventQueue<K, ()>
